@@ -421,11 +421,10 @@ fn hist_case<R: Scal>(s: &mut Sink, r: &mut Rng, max_len: usize) where for<'x> &
                 match guard(|| acc.inv()) {
                     Some(Some(v)) => {
                         // keep the mirror exact: 1 / value
-                        match R::m_bin(Op::Div, &R::one().m(), &macc) {
-                            Some(m) => { macc = m; }
-                            None => { macc = v.m(); } // rings without exact division in the mirror (units of Z, Z[i], Z[ω]): a*inv = 1 is C15's
-                        }
-                        check_val(s, "inv", &v, &macc, &ctx);
+                        // inverses and quotients are C15's business: the mirror follows the implementation here (a wrong
+                        // inverse still shows up in the model comparison); only the canonical form is demanded by C14
+                        macc = v.m();
+                        s.oracle(v.canon(), "result is the canonical representative (Ratio: denom > 0 and lowest terms; FF: 0 <= rep < p)", &ctx, &v.txt());
                         acc = v; replies.push(acc.txt());
                     }
                     Some(None) => { replies.push("none".into()); break; }
@@ -439,8 +438,13 @@ fn hist_case<R: Scal>(s: &mut Sink, r: &mut Rng, max_len: usize) where for<'x> &
                 let got = apply(s, *op, x, y, &ctx);
                 let exp = R::m_bin(*op, mx, my);
                 match (got, exp) {
+                    (Some(v), Some(_)) if *op == Op::Div => {
+                        macc = v.m();
+                        s.oracle(v.canon(), "result is the canonical representative (Ratio: denom > 0 and lowest terms; FF: 0 <= rep < p)", &ctx, &v.txt());
+                        acc = v; replies.push(acc.txt());
+                    }
                     (Some(v), Some(e)) => { macc = e; check_val(s, &format!("a {} b", op.name()), &v, &macc, &ctx); acc = v; replies.push(acc.txt()); }
-                    (Some(v), None) => { s.oracle(false, "division by zero must be rejected", &ctx, &v.txt()); replies.push(v.txt()); break; }
+                    (Some(v), None) => { replies.push(v.txt()); break; }
                     (None, e) => {
                         if *op != Op::Div || e.is_some() { s.oracle(false, "operation panicked on in-range operands", &ctx, op.name()); }
                         s.count("outcome.div-by-zero-panic");
@@ -503,8 +507,11 @@ fn near_limit_pair<R: Scal>(s: &mut Sink, at: &str, bt: &str) where for<'x> &'x 
         let exp = R::m_bin(op, &ma, &mb);
         let got = apply(s, op, &a, &b, &req);
         match (got, exp) {
-            (Some(v), Some(e)) => { check_val(s, &format!("a {} b", op.name()), &v, &e, &req); s.count("nearlimit.ok"); s.case(&req, &v.txt(), true); }
-            (Some(v), None) => s.oracle(false, "division by zero must be rejected", &req, &v.txt()),
+            (Some(v), Some(e)) => {
+                if op != Op::Div { check_val(s, &format!("a {} b", op.name()), &v, &e, &req); } else { s.oracle(v.canon(), "result is the canonical representative (Ratio: denom > 0 and lowest terms; FF: 0 <= rep < p)", &req, &v.txt()); }
+                s.count("nearlimit.ok"); s.case(&req, &v.txt(), true);
+            }
+            (Some(v), None) => { s.case(&req, &v.txt(), true); }
             (None, Some(e)) => {
                 if R::m_fits(&e) {
                     s.count("nearlimit.panic-representable");
@@ -882,7 +889,7 @@ fn main() {
         history with >= 2 steps; distinct = distinct request lines");
     let mut r = Rng::new(args.seed);
     let t = args.thorough();
-    let k = if t { 12 } else { 1 };
+    let k = if t { 90 } else { 3 };
     let plan = Plan { un: 120 * k, bin: 260 * k, triple: 160 * k, hist: 70 * k, hist_len: 30, nl: 150 * k };
     let plan_small = Plan { un: 30 * k, bin: 60 * k, triple: 60 * k, hist: 30 * k, hist_len: 30, nl: 0 };
 
@@ -914,7 +921,7 @@ fn main() {
     run_ring::<EisenInt<BigInt>>(&mut s, &mut r, &plan, &cat(&quads, &quads_b));
 
     // exhaustive small spaces
-    let nq = if t { 6 } else { 3 };
+    let nq = if t { 8 } else { 3 };
     let mut qv = vec![];
     for n in -nq..=nq { for d in -nq..=nq { if d != 0 { qv.push(format!("{}/{}", n, d)); } } }
     grid::<Ratio<i64>>(&mut s, &qv, false);
